@@ -45,6 +45,7 @@ type c07Case struct {
 	Res     string           `json:"res"`
 	Err     incErr           `json:"err"`
 	Opened  []string         `json:"opened"`
+	Cyc     []trItem         `json:"cyc"`
 	Nodes   []incNode        `json:"nodes"`
 	Dup     int              `json:"dup"`
 }
@@ -387,6 +388,17 @@ func c07One(res *Result, base string, cs *c07Case, distinct map[string]struct{})
 		}
 		res.mismatch(sig, fmt.Sprintf("paths handed to the OS: spec %v code %v", cs.Opened, ops), replay)
 		return
+	}
+	// C14: an INCLUDE closed a cycle -> the project has to be rejected with the recursion error. (The code notices a cycle
+	// one lap later, when the re-entered file reaches the INCLUDE again; whatever it rejects on the way masks the cycle.)
+	if len(cs.Cyc) > 0 && !selftestEOL {
+		res.count("cycles")
+		if je == nil {
+			res.mismatch("c14:cycle-accepted", "a project with an include cycle is accepted", replay)
+		} else if got := classifyIncErr(je.Msg); got != "recursion" {
+			res.mismatch("c14:cycle-masked-by:"+short(got), fmt.Sprintf("the INCLUDE at %s token %d closes a cycle, but the project is rejected with %q at %s:%d instead of the recursion error",
+				cs.Cyc[0].F, cs.Cyc[0].I, firstLine(je.Msg), p.rel(je.File.Name()), je.Line), replay)
+		}
 	}
 	if cs.Res == "err" {
 		if je == nil {
